@@ -84,6 +84,7 @@ structure Core where
   isentrylink : Bool := false         -- stage 4: `self.isentrylink`
   inauthor : Bool := false            -- stage 7: `self.inauthor`
   incontributor : Bool := false       -- stage 7: `self.incontributor`
+  inpublisher : Bool := false         -- stage 7: `self.inpublisher` (itunes:owner)
 deriving Repr
 
 structure MSt where
@@ -645,51 +646,56 @@ def stripAuthor (author email : Str) : Str :=
   let a3 := if a2.getLast? == some ')' then a2.dropLast else a2
   stripS a3
 
-/-- `_sync_author_detail()` (key = "author") on the current context dict -/
-def syncAuthor (o : Ops) (d : D) : D :=
-  let lastIdx : Option (Nat × Item) := match listOf d (S "authors") with
+/-- `_sync_author_detail(key)` on the current context dict (`key` = "author", or "publisher" for webMaster / dc:publisher) -/
+def syncKey (o : Ops) (d : D) (key : Str) : D :=
+  let lastIdx : Option (Nat × Item) := match listOf d (key ++ ['s']) with
     | some items => (match items.reverse with | last :: _ => some (items.length - 1, last) | [] => none)
     | none => none
   match lastIdx with
   | some (_, last@(_ :: _)) =>
     -- the last author dict has entries: the author string is rebuilt from it
     let name := iget last (S "name"); let email := iget last (S "email")
-    if truthyO name && truthyO email then fset d (S "author") (.s (name.getD [] ++ S " (" ++ email.getD [] ++ S ")"))
-    else if truthyO name then fset d (S "author") (.s (name.getD []))
-    else if truthyO email then fset d (S "author") (.s (email.getD []))
+    if truthyO name && truthyO email then fset d key (.s (name.getD [] ++ S " (" ++ email.getD [] ++ S ")"))
+    else if truthyO name then fset d key (.s (name.getD []))
+    else if truthyO email then fset d key (.s (email.getD []))
     else d
   | other =>
     -- no author dict yet, or an EMPTY one (the one `_start_author` appended): the author string is taken apart; the dict that receives the parts is that empty
     -- dict itself — which then also becomes `author_detail` when there is none (`.ref`) — or a fresh one
-    match dget d (S "author") with
+    match dget d key with
     | some (.s author) =>
       if author.isEmpty then d else
       let email : Option Str := o.emailMatch author
       let a' : Str := match email with | some e => stripAuthor author e | none => author
-      let d1 := if (!a'.isEmpty || email.isSome) && (dget d (S "author_detail")).isNone then
+      let d1 := if (!a'.isEmpty || email.isSome) && (dget d (key ++ S "_detail")).isNone then
           (match other with
-           | some (i, _) => dset d (S "author_detail") (.ref i)
-           | none => dset d (S "author_detail") (.det ((if a'.isEmpty then [] else [(S "name", some a')]) ++ (match email with | some e => [(S "email", some e)] | none => []))))
+           | some (i, _) => dset d (key ++ S "_detail") (.ref i)
+           | none => dset d (key ++ S "_detail") (.det ((if a'.isEmpty then [] else [(S "name", some a')]) ++ (match email with | some e => [(S "email", some e)] | none => []))))
         else d
       (match other with
        | some (i, _) =>
-         let d2 := if a'.isEmpty then d1 else setInNth d1 (S "authors") i (S "name") (some a')
-         (match email with | some e => setInNth d2 (S "authors") i (S "email") (some e) | none => d2)
+         let d2 := if a'.isEmpty then d1 else setInNth d1 (key ++ ['s']) i (S "name") (some a')
+         (match email with | some e => setInNth d2 (key ++ ['s']) i (S "email") (some e) | none => d2)
        | none => d1)
     | _ => d
 
-/-- `_save_author(key, value)` (prefix "author") -/
-def saveAuthor (o : Ops) (d : D) (k : Str) (v : Option Str) : D :=
-  -- detail = context.setdefault("author_detail", {}); a non-dict value is replaced by a fresh dict; detail[key] = value
-  let d1 := match dget d (S "author_detail") with
-    | some (.ref i) => setInNth d (S "authors") i k v
-    | some (.det kv) => dset d (S "author_detail") (.det (lset kv k v))
-    | some (.d kv) => dset d (S "author_detail") (.det (lset (kv.map fun p => (p.1, some p.2)) k v))
-    | _ => dset d (S "author_detail") (.det [(k, v)])
+def syncAuthor (o : Ops) (d : D) : D := syncKey o d (S "author")
+
+/-- `_save_author(key, value, prefix)`: the detail dict is `prefix_detail`; the re-synchronisation and the `authors` list are those of the AUTHOR whatever the prefix -/
+def saveAuthorP (o : Ops) (d : D) (pfx k : Str) (v : Option Str) : D :=
+  -- detail = context.setdefault(prefix + "_detail", {}); a non-dict value is replaced by a fresh dict; detail[key] = value
+  let dk := pfx ++ S "_detail"
+  let d1 := match dget d dk with
+    | some (.ref i) => setInNth d (pfx ++ ['s']) i k v
+    | some (.det kv) => dset d dk (.det (lset kv k v))
+    | some (.d kv) => dset d dk (.det (lset (kv.map fun p => (p.1, some p.2)) k v))
+    | _ => dset d dk (.det [(k, v)])
   let d2 := syncAuthor o d1
   -- context.setdefault("authors", [{}]); the last item gets the key
   let d3 := if (dget d2 (S "authors")).isNone then dset d2 (S "authors") (.l [[]]) else d2
   setInLast d3 (S "authors") k v
+
+def saveAuthor (o : Ops) (d : D) (k : Str) (v : Option Str) : D := saveAuthorP o d (S "author") k v
 
 /-- `_save_contributor(key, value)` -/
 def saveContributor (d : D) (k : Str) (v : Option Str) : D :=
@@ -718,11 +724,14 @@ def startAuthorKinds (c : Core) (kind : Str) (attrsD : List (Str × Str)) : Opti
   else if kind == S "name" then some (c, [⟨S "name", false, []⟩])
   else if kind == S "email" then some (c, [⟨S "email", false, []⟩])
   else if kind == S "url" then some (c, [⟨S "href", true, []⟩])
+  else if kind == S "publisher" then some (c, [⟨S "publisher", true, []⟩])      -- `_start_webmaster`: `self.push("publisher", 1)`
+  else if kind == S "owner" then some ({ c with inpublisher := true }, [⟨S "publisher", false, []⟩])      -- `_start_itunes_owner`
   else none
 
 /-- where `_end_name` / `_end_email` / `_end_url` put their value (`inpublisher` and `intextinput` are never set inside the model's domain) -/
 def savePart (o : Ops) (c : Core) (k : Str) (v : Option Str) (allowContributor : Bool := true) : Core :=
-  if c.inauthor then putContext c (saveAuthor o (contextD c) k v)
+  if c.inpublisher && k != S "href" then putContext c (saveAuthorP o (contextD c) (S "publisher") k v)      -- `_end_name` / `_end_email` ask `inpublisher` first; `_end_url` does not
+  else if c.inauthor then putContext c (saveAuthor o (contextD c) k v)
   else if c.incontributor && allowContributor then putContext c (saveContributor (contextD c) k v)
   else c
 
@@ -742,6 +751,14 @@ def endAuthorKinds (o : Ops) (s0 : MSt) (kind : Str) : Option MSt :=
   else if kind == S "url" then
     let s1 := pop o s0 (S "href")
     some ⟨savePart o s1.c (S "href") (popValue o s0 (S "href")), s1.stack⟩
+  else if kind == S "publisher" then
+    -- `_end_webmaster`: `self.pop("publisher"); self._sync_author_detail("publisher")`
+    let s1 := pop o s0 (S "publisher")
+    some ⟨putContext s1.c (syncKey o (contextD s1.c) (S "publisher")), s1.stack⟩
+  else if kind == S "owner" then
+    -- `_end_itunes_owner`: `self.pop("publisher"); self.inpublisher = 0; self._sync_author_detail("publisher")`
+    let s1 := pop o s0 (S "publisher")
+    some ⟨putContext { s1.c with inpublisher := false } (syncKey o (contextD s1.c) (S "publisher")), s1.stack⟩
   else none
 
 def startLG (o : Ops) (c : Core) (kind : Str) (attrsD : List (Str × Str)) : Except Str (Core × List Elem) :=
